@@ -220,6 +220,8 @@ type vCC struct {
 	pubs    []vPub
 	harness *vPool
 	onNew   func() // armed by `doneccs`: runs at the start of the next NewSubConn (outside cc.mu)
+	flaky   bool   // operation `ccsflaky`: the next flakyOK creations succeed, every later one fails
+	flakyOK int
 }
 
 const vMaxEvents = 64 // a spinning callback must not flood the trace
@@ -257,6 +259,13 @@ func (cc *vCC) NewSubConn(a []resolver.Address, _ balancer.NewSubConnOptions) (b
 		cc.failN--
 		cc.evLocked("newfail")
 		return nil, errors.New("verif: factory failure")
+	}
+	if cc.flaky {
+		if cc.flakyOK == 0 {
+			cc.evLocked("newfail")
+			return nil, errors.New("verif: the ClientConn is closing")
+		}
+		cc.flakyOK--
 	}
 	sc := &vSubConn{id: cc.nextSc, cc: cc}
 	cc.nextSc++
@@ -658,7 +667,19 @@ func (h *vPool) exec(line string) string {
 	}
 	res := ""
 	switch toks[1] {
-	case "ccs":
+	case "ccs", "ccsflaky":
+		// ccsflaky ok=<k>: during this update the connection factory works k more times and fails from then on
+		// (as gRPC's does once the ClientConn is closing)
+		if toks[1] == "ccsflaky" {
+			h.cc.mu.Lock()
+			h.cc.flaky, h.cc.flakyOK = true, atoi("ok")
+			h.cc.mu.Unlock()
+			defer func() {
+				h.cc.mu.Lock()
+				h.cc.flaky = false
+				h.cc.mu.Unlock()
+			}()
+		}
 		ver := atoi("addrs")
 		addrs := []resolver.Address{}
 		if ver > 0 {
@@ -2979,6 +3000,30 @@ func TestVerifPool(t *testing.T) {
 			obs := h.exec(line)
 			fmt.Fprintf(w, " => %s\n", obs)
 			vExitOnHang(w, obs)
+		}
+		// now and then an episode ends like this (choices from a generator of its own: the main sequence is as it
+		// was): every channel of the pool is shut down, and the resolver update that re-creates the pool meets a
+		// connection factory that works once or twice more and then fails for good. The model has no such
+		// factory: the driver lets the monitors go on alone from there.
+		rng3 := rand.New(rand.NewSource(seed*31 + int64(ep)))
+		if rng3.Intn(3) == 0 && !h.dead && h.gb != nil && h.gb.cfg != nil && len(h.held) == 0 && len(h.gb.refreshingScRefs) == 0 {
+			ids := []int{}
+			for sc := range h.gb.scRefs {
+				ids = append(ids, sc.(*vSubConn).id)
+			}
+			sort.Ints(ids)
+			lines := []string{}
+			for _, id := range ids {
+				lines = append(lines, fmt.Sprintf("pool scs sc=%d st=SHUTDOWN", id))
+			}
+			lines = append(lines, fmt.Sprintf("pool ccsflaky addrs=%d ok=%d", g.maxAddr, 1+rng3.Intn(2)))
+			for _, line := range lines {
+				w.WriteString(line)
+				w.Flush()
+				obs := h.exec(line)
+				fmt.Fprintf(w, " => %s\n", obs)
+				vExitOnHang(w, obs)
+			}
 		}
 	}
 }
